@@ -72,13 +72,30 @@ def replay_failure(h, prop, logdir):
                "    let concrete_vals: Vec<Vec<u8>> = vec![];\n    kani::concrete_playback_run(concrete_vals, %s);\n}\n"
                % (tname, h.short))
         all_tests = [("assertion", "harness without symbolic input fails natively", tname, src)]
+    elif getattr(h, "native_space", None):
+        # the symbolic input space of the harness is tiny: instead of a second CBMC run in trace mode (hours, and
+        # kani-driver cannot hold the trace of these harnesses) every input vector is executed natively; the solver
+        # verdict decided, this only confirms it against the real build
+        import itertools
+        all_tests = []
+        for combo in itertools.product(*[vals for (_ty, vals) in h.native_space]):
+            rows = []
+            for (ty, _vals), v in zip(h.native_space, combo):
+                width = {"u8": 1, "bool": 1, "u16": 2, "u32": 4, "u64": 8, "usize": 8}[ty]
+                rows.append("vec![%s]" % ", ".join(str(b) for b in int(v).to_bytes(width, "little")))
+            tname = "kani_concrete_playback_%s_%s" % (h.short, "_".join(str(int(v)) for v in combo))
+            src = ("/// Check for `assertion`: \"native run with inputs %s\"\n#[test]\nfn %s() {\n"
+                   "    let concrete_vals: Vec<Vec<u8>> = vec![%s];\n    kani::concrete_playback_run(concrete_vals, %s);\n}\n"
+                   % (list(combo), tname, ", ".join(rows), h.short))
+            all_tests.append(("assertion", "fails natively with inputs %s" % (list(combo),), tname, src))
     else:
         r = run_harness(h, logdir, playback=True)
         all_tests = extract_tests(r["text"] or "")
     # Kani writes playback tests for failed assertions and for satisfied cover witnesses, but none for
     # CBMC's built-in checks (e.g. "memcpy src/dst overlap").  The witness tests are tried as well: they
     # count only if the *native* run fails, so a witness that does not hit the defect changes nothing.
-    tests = [t for t in all_tests if t[0] != "cover"][:8] + [t for t in all_tests if t[0] == "cover"][:4]
+    lim = 64 if getattr(h, "native_space", None) else 8
+    tests = [t for t in all_tests if t[0] != "cover"][:lim] + [t for t in all_tests if t[0] == "cover"][:4]
     if not tests:
         return False, None, "Kani produced no concrete playback test for the failed checks"
     res, out = native_run(h, tests)
